@@ -7,6 +7,7 @@ CONSTANTS p = 19
  xneg = TRUE
  fam = "BN"
  n2 = 325
+ CMax = 18
 SPECIFICATION Spec
 INVARIANT Check
 CHECK_DEADLOCK FALSE
